@@ -992,7 +992,11 @@ struct ChannelWorld : World {
         c.page = plan.knob("page", 0) != 0;
         c.record = record;
         c.residue = res;
-        simrng_reset(simrng_cur(), plan.digest() ^ salt, SIMRNG_RANDOM);
+        // the entropy tape is the SAME in both twin executions: what must not survive a free is what the object was given
+        // or derived from it (keys, nonces, messages); an object that is re-masked or refilled from fresh entropy while
+        // it is cleared holds bytes that depend on the tape only, and those are equal in the twins
+        (void)salt;
+        simrng_reset(simrng_cur(), plan.digest(), SIMRNG_RANDOM);
         g_mask_extract_bad = false;
         int idx = 0;
         for (const Op &op : plan.ops) {
